@@ -53,7 +53,11 @@ for p in props:
             prev.append(s[:330])
         for f in m.get("files_changed", []):
             files.add(os.path.basename(f))
-    if rnd >= 8:
+    if rnd >= 9:
+        text += """
+ROUND %d STYLE: this round, make each change one that ordinary straight-line use never exposes and that needs a specific HISTORY to manifest: (a) a MULTI-STEP SEQUENCE of public calls (set an option, run, unset it, run again; clone / snapshot between two particular calls; swap replicas, then convert or restore; add an interaction after steps were taken; change beta / cutoff / fields through setters mid-run; call a single_* step directly before or after timestep; reuse an object after a method returned Err or after a caught panic), where state left behind by an EARLIER call (a cached table, a flag, a counter, a capacity, a hint, a pooled buffer, an offset) is consumed wrongly by a LATER one; or (b) TWO COOPERATING SITES in different functions or files that each look locally correct (one writes a field in new units / new convention / lazily, the other still reads the old one on one path only), so that no single hunk looks wrong; or (c) an ORDER dependence (the result depends on the order in which edges / interactions / replicas were added, or on which replica of a pair is stepped first, or on whether an optional feature was enabled before or after construction). The very first timestep after construction, and any run that never touches the second site / the setter / the option, must behave exactly as before. Do not use size thresholds or numeric tolerances this round.
+""" % rnd
+    elif rnd >= 8:
         text += """
 ROUND %d STYLE: this round, make each change one that is INVISIBLE AT ORDINARY SCALE and wrong only in a SCALE or REGIME corner that legitimate use reaches: a narrowing cast or smaller integer type (`as u32`, `as u16`, `u8` counters, `as f32` intermediates) 'to save memory', a fixed-size bitset / array / `SmallVec` capacity / `1 << i` mask assuming few variables or few bonds, a cap or `min(.., N)` on a length, count or number of iterations, a hard-coded small-size fast path, a precision-losing but algebraically equivalent rearrangement of floating point (`exp(a)/exp(b)` vs `exp(a-b)`, `powi`, summing in another order with an `f32` accumulator, `(x * n) / n`), an absolute tolerance or threshold that presumes unit-scale couplings, an index computed as `i * stride` in a type that wraps, a pre-sized buffer that is not grown. The change must be bit-for-bit harmless for small systems at unit scale (a handful of spins, cutoff below ~50, beta ~ 1, |J| ~ 1) and break the property for larger systems (e.g. more than 32/64/255 variables or bonds, more than 255/65535 operators, many replicas), longer runs, extreme beta, or very small / very large couplings. The diff may be 5-40 lines and must read as one coherent, well-commented commit a reviewer would approve. The requirement that the pinned suite still passes and that a demonstration fails with / passes without the change is unchanged; keep the demonstration's runtime under two minutes.
 """ % rnd
